@@ -20,7 +20,7 @@ RULE = (
     "non-trivial = repeated single-agent measurements / unequal chains / >=2 samples present"
 )
 ASSUMPTIONS = ["correlation cases whose centred prediction row is (nearly) identically zero (length below 1e-13: 0/0 diagonal) are detected and skipped; for near-replicate samples (lengths 1e-13 .. 1e-9) the tolerance on the entries grows with 2e-14 / length, the diagonal stays at 1e-9"]
-REQUIRED = {"single_effect_cases_with_failed_wells": {"quick": 100, "thorough": 2000}, "synergy_cases_with_failed_wells": {"quick": 40, "thorough": 800}, "single_effect_cases_with_ids_of_another_integer_width": {"quick": 40, "thorough": 1000}, "correlation_cases_with_permuted_supplied_mappings": {"quick": 40, "thorough": 800}, "correlation_cases_near_replicate_samples": {"quick": 10, "thorough": 250}, "synergy_cases_with_integer_observations": {"quick": 60, "thorough": 1500}, "analysis_cli_runs": {"quick": 8, "thorough": 80}, "evaluation_cases": {"quick": 300, "thorough": 8000}, "single_effect_cases": {"quick": 300, "thorough": 8000}, "single_effect_cases_with_sparse_ids": {"quick": 80, "thorough": 2000}, "synergy_cases": {"quick": 300, "thorough": 8000}, "correlation_cases": {"quick": 60, "thorough": 1500}, "combinatoric_space_cases": {"quick": 100, "thorough": 2500}}
+REQUIRED = {"evaluation_cases_with_non_ascii_sample_names": {"quick": 100, "thorough": 2000}, "single_effect_cases_with_failed_wells": {"quick": 100, "thorough": 2000}, "synergy_cases_with_failed_wells": {"quick": 40, "thorough": 800}, "single_effect_cases_with_ids_of_another_integer_width": {"quick": 40, "thorough": 1000}, "correlation_cases_with_permuted_supplied_mappings": {"quick": 40, "thorough": 800}, "correlation_cases_near_replicate_samples": {"quick": 10, "thorough": 250}, "synergy_cases_with_integer_observations": {"quick": 60, "thorough": 1500}, "analysis_cli_runs": {"quick": 8, "thorough": 80}, "evaluation_cases": {"quick": 300, "thorough": 8000}, "single_effect_cases": {"quick": 300, "thorough": 8000}, "single_effect_cases_with_sparse_ids": {"quick": 80, "thorough": 2000}, "synergy_cases": {"quick": 300, "thorough": 8000}, "correlation_cases": {"quick": 60, "thorough": 1500}, "combinatoric_space_cases": {"quick": 100, "thorough": 2500}}
 N_CASES = {"quick": 1920, "thorough": 24000}
 
 
@@ -94,6 +94,12 @@ def run_shard(rec, tier, seed, shard, nshards):
                 if style == "unequal":
                     chains = np.sort(chains)
             names = np.array(["s%d" % int(x) for x in rng.integers(0, 3, size=E)], dtype=str)
+            if rng.random() < 0.3:
+                # cell-line names as labs write them: non-ASCII letters (more UTF-8 bytes than characters), also in the
+                # longest name of the list; blanks; one name the prefix of another
+                pool_ = ["PDX-Zürich-12", "PDX-Zürich-1", "Zürich", "NCI-H1299", "α", "日本株3", "HT 29", "é", "MCF7ß"]
+                names = np.array([pool_[int(x)] for x in rng.integers(0, len(pool_), size=E)], dtype=str)
+                rec.count("evaluation_cases_with_non_ascii_sample_names")
             if rng.random() < 0.3:
                 # the matrices arrive in other containers: read-only (loaded lazily, shared between workers), strided,
                 # column-major (a transposed samples-by-experiments matrix), a window into a bigger buffer
